@@ -503,9 +503,9 @@ class C16(Prop):
         note='Lean kernel; standard axioms; CPython scheduler, GIL, lark and C extensions are outside the model (stress-tested only); '
              'the machine\'s atomic-step granularity is validated by the line-level explorer, not proven',
         ref='DESIGN.md §5 C16')
-    lean_targets = ["Cel.Props.C16", "Cel.Bridge.Runtime"]
-    audit_namespaces = ["Cel.Props.C16", "Cel.Bridge.Runtime"]
-    gen_names = ["Runtime"]
+    lean_targets = ["Cel.Props.C16", "Cel.Bridge.RuntimeNs"]
+    audit_namespaces = ["Cel.Props.C16", "Cel.Bridge.RuntimeNs"]
+    gen_names = ["RuntimeNs"]
     trusted = ["CPython's thread scheduler and GIL; races inside lark or C code cannot be exhibited by the model (free-running stress only)",
                "the explorer's scheduling points (line events of evaluate/result/set_activation and of the transpiled code) are fine enough",
                "translation of the transpiled statement text into the model's statement language (py/verif/props/c16.py: stmts_tokens)"]
@@ -570,7 +570,7 @@ class C16(Prop):
     def policy_letter(self):
         try:
             from ..translate import gen_c05_c16
-            return "p" if gen_c05_c16.read_config()["ns"] == "perCall" else "s"
+            return "p" if gen_c05_c16.read_config(("ns",))["ns"] == "perCall" else "s"
         except Exception:
             return "p"
 
